@@ -388,6 +388,8 @@ private:
     fraction<uint64_t> m_invDeltaTicks;
     //! Current tempo
     fraction<uint64_t> m_tempo;
+    //! Tempo at the begin of the song (restored by rewind)
+    fraction<uint64_t> m_tempoBegin;
 
     //! Tempo multiplier factor
     double  m_tempoMultiplier;
